@@ -18,6 +18,7 @@
     * a delete that is answered `ShuttingDown` is not applied (`C11_shutdown_corner`).
 -/
 import CachedProofs.Lemmas.Queue
+import CachedProofs.LayerB.Refine
 
 namespace Cached
 
